@@ -184,6 +184,7 @@ type scenario struct {
 	Reconnect  bool   `json:"reconnect"`
 	Offline    int    `json:"offline_changes"`
 	Odd        bool   `json:"huge_ids_prefix_keys"`
+	OneField   bool   `json:"one_field_updates"`
 	Seed       int64  `json:"scenario_seed"`
 }
 
@@ -946,6 +947,9 @@ func (w *world) run() {
 		r.Eval(1)
 		r.Count("sync_phases_incremental-live", 1)
 		r.Distinct(fmt.Sprintf("live|%s|%d|%v", sc.Branch, sc.N, sc.Bursts))
+		if sc.OneField && !w.oneFieldPhase() {
+			return
+		}
 	}
 	// ---- disconnect, change the leader meanwhile, reconnect: catch-up from the log ----
 	if sc.Reconnect && len(sc.Bursts) > 0 {
@@ -1022,6 +1026,120 @@ func (w *world) windowFirst() uint64 {
 	return w.histBase
 }
 
+// settleLive waits until everything pushed so far has been broadcast on stream 1 and applied.
+func (w *world) settleLive() bool {
+	total := len(w.pushed)
+	if !w.waitFor("RunServer to send every pushed change", func() bool {
+		return w.leaderNext() == w.histBase+uint64(total) && w.liveRegionsCaptured(1, "live") >= total-w.liveBase()
+	}) {
+		return false
+	}
+	return w.waitFor("the follower to apply the pushed changes", func() bool { return w.followerCaughtUp(1) })
+}
+
+// oneFieldPhase: versions of a region that differ from the previous one in exactly ONE field (each
+// flow counter alone, a counter going to zero, the leader alone, conf_ver alone, version alone, the
+// peer list alone, a peer role alone, the end key alone), each sent alone and judged on its own, then
+// all of them again inside one message.
+func (w *world) oneFieldPhase() bool {
+	r := w.r
+	var ids []uint64
+	for _, id := range w.live {
+		if ri := w.leader.bc.GetRegion(id); ri != nil && ri.GetLeader() != nil && len(ri.GetPeers()) >= 3 && len(ids) < 2 {
+			ids = append(ids, id)
+		}
+	}
+	type step struct {
+		name string
+		f    func(cur *core.RegionInfo) *core.RegionInfo
+	}
+	other := func(cur *core.RegionInfo) *metapb.Peer {
+		for _, p := range cur.GetPeers() {
+			if p.GetId() != cur.GetLeader().GetId() {
+				return p
+			}
+		}
+		return cur.GetLeader()
+	}
+	steps := []step{
+		{"written-bytes", func(c *core.RegionInfo) *core.RegionInfo {
+			return c.Clone(core.SetWrittenBytes(c.GetBytesWritten() + 1))
+		}},
+		{"written-keys", func(c *core.RegionInfo) *core.RegionInfo { return c.Clone(core.SetWrittenKeys(c.GetKeysWritten() + 1)) }},
+		{"read-bytes", func(c *core.RegionInfo) *core.RegionInfo { return c.Clone(core.SetReadBytes(c.GetBytesRead() + 1)) }},
+		{"read-keys", func(c *core.RegionInfo) *core.RegionInfo { return c.Clone(core.SetReadKeys(c.GetKeysRead() + 1)) }},
+		{"written-bytes-to-zero", func(c *core.RegionInfo) *core.RegionInfo { return c.Clone(core.SetWrittenBytes(0)) }},
+		{"read-keys-to-zero", func(c *core.RegionInfo) *core.RegionInfo { return c.Clone(core.SetReadKeys(0)) }},
+		{"written-keys-to-zero", func(c *core.RegionInfo) *core.RegionInfo { return c.Clone(core.SetWrittenKeys(0)) }},
+		{"read-bytes-to-zero", func(c *core.RegionInfo) *core.RegionInfo { return c.Clone(core.SetReadBytes(0)) }},
+		{"written-bytes-back", func(c *core.RegionInfo) *core.RegionInfo { return c.Clone(core.SetWrittenBytes(777)) }},
+		{"leader", func(c *core.RegionInfo) *core.RegionInfo { return c.Clone(core.WithLeader(other(c))) }},
+		{"conf-ver", func(c *core.RegionInfo) *core.RegionInfo { return c.Clone(core.WithIncConfVer()) }},
+		{"version", func(c *core.RegionInfo) *core.RegionInfo { return c.Clone(core.WithIncVersion()) }},
+		{"peer-added", func(c *core.RegionInfo) *core.RegionInfo {
+			return c.Clone(core.WithAddPeer(&metapb.Peer{Id: w.allocID(), StoreId: 19}))
+		}},
+		{"peer-role", func(c *core.RegionInfo) *core.RegionInfo {
+			var ps []*metapb.Peer
+			o := other(c)
+			for _, p := range c.GetPeers() {
+				q := *p
+				if p.GetId() == o.GetId() {
+					q.Role = metapb.PeerRole_Learner
+				}
+				ps = append(ps, &q)
+			}
+			return c.Clone(core.SetPeers(ps))
+		}},
+		{"end-key", func(c *core.RegionInfo) *core.RegionInfo {
+			mid := append(append([]byte(nil), c.GetStartKey()...), '7')
+			if len(c.GetEndKey()) > 0 && bytes.Compare(mid, c.GetEndKey()) >= 0 {
+				return nil
+			}
+			return c.Clone(core.WithEndKey(mid))
+		}},
+	}
+	for pass := 0; pass < 2; pass++ {
+		for _, id := range ids {
+			for _, st := range steps {
+				cur := w.leader.bc.GetRegion(id)
+				if cur == nil {
+					break
+				}
+				nv := st.f(cur)
+				if nv == nil {
+					continue
+				}
+				if !w.apply(nv) {
+					return false
+				}
+				w.pushed = append(w.pushed, nv)
+				w.notifier <- nv
+				r.Count("one_field_updates_pushed", 1)
+				if pass == 0 {
+					// alone in its message, judged on its own
+					if !w.settleLive() {
+						return false
+					}
+					w.judgeWire(1, "live", 0, false)
+					w.judgeFollower("one-field update: " + st.name)
+				}
+			}
+			if pass == 1 {
+				if !w.settleLive() {
+					return false
+				}
+				w.judgeWire(1, "live", 0, false)
+				w.judgeFollower("one-field updates of one region inside one message")
+			}
+		}
+	}
+	r.Eval(1)
+	r.Count("sync_phases_one-field-updates", 1)
+	r.Distinct(fmt.Sprintf("onefield|%s|%d", w.sc.Branch, w.sc.N))
+	return true
+}
+
 // liveBase: number of log records that were not sent as live messages (recorded before connect).
 func (w *world) liveBase() int {
 	if w.sc.Branch == "incr" {
@@ -1060,6 +1178,8 @@ func syncScenarios(r *ev.Run, rng *rand.Rand) []scenario {
 			scenario{N: 101, Branch: "incr", LeaderMode: "mixed", Odd: true, Bursts: []int{5}},
 			scenario{N: 1, Branch: "full", LeaderMode: "all", Odd: true, Bursts: []int{3}},
 			scenario{N: 2500, Branch: "full", LeaderMode: "mixed", Bursts: []int{3}},
+			scenario{N: 20, Branch: "full", LeaderMode: "all", OneField: true, Bursts: []int{2}, Reconnect: true, Offline: 3},
+			scenario{N: 7, Branch: "incr", LeaderMode: "all", OneField: true, Bursts: []int{1}},
 			// the leader's log (capacity 10000) wraps exactly up to the follower's index
 			scenario{N: 120, Branch: "full", LeaderMode: "all", Bursts: []int{4}, Reconnect: true, Offline: leaderLogCapacity})
 	} else {
@@ -1086,6 +1206,10 @@ func syncScenarios(r *ev.Run, rng *rand.Rand) []scenario {
 		for _, n := range []int{1, 2, 101, 250, 1000} {
 			out = append(out, scenario{N: n, Branch: "full", LeaderMode: "mixed", Odd: true, Bursts: []int{30}, Reconnect: true, Offline: 40},
 				scenario{N: n, Branch: "incr", LeaderMode: "all", Odd: true, Bursts: []int{101}})
+		}
+		for _, n := range []int{3, 20, 101} {
+			out = append(out, scenario{N: n, Branch: "full", LeaderMode: "all", OneField: true, Bursts: []int{2}, Reconnect: true, Offline: 3},
+				scenario{N: n, Branch: "incr", LeaderMode: "mixed", OneField: true, Bursts: []int{1}})
 		}
 		out = append(out, scenario{N: 2500, Branch: "full", LeaderMode: "mixed", Bursts: []int{3}}, scenario{N: 5000, Branch: "full", LeaderMode: "all", Bursts: []int{3}})
 	}
